@@ -114,14 +114,15 @@ func (w *World) execReload(op Op) {
 	}
 	oldTip := w.tip
 	oldRepo := w.repo
+	// permissions: what may be dropped by this load. Marked before the first snapshot: in long chain
+	// mode the sampled heights depend on the prune line, and both snapshots must sample the same set.
+	line := w.tip.Height - w.depth()
+	w.markPrunable()
 	var before string
 	if w.on("c11") {
 		before = w.snapshotForReload(w.repo)
 		w.c.Nontrivial()
 	}
-	// permissions: what may be dropped by this load
-	line := w.tip.Height - w.depth()
-	w.markPrunable()
 	forgettable := 0
 	for _, n := range w.m.All {
 		if !n.Accepted || w.onBest(n) {
@@ -461,6 +462,32 @@ func (w *World) execProof(op Op) {
 	}
 }
 
+// execSplit configures a chain split at the next height: the current tip is the header on both chains,
+// a freshly minted child of it (never part of our chain: submitting it must be refused as the wrong
+// chain) is the first header of the other chain. A=serial of that header.
+func (w *World) execSplit(op Op) {
+	if w.tip == nil || len(w.splits) >= 3 {
+		return
+	}
+	x := w.execMint(Op{K: "mint", A: op.A, B: w.tip.Serial, C: 0, D: 600, E: 1})
+	if x == nil {
+		return
+	}
+	if w.splitAfter == nil {
+		w.splitAfter, w.splitBefore = map[model.Hash]int{}, map[model.Hash]bool{}
+	}
+	w.splits = append(w.splits, headers.Split{Name: fmt.Sprintf("SIM%d", len(w.splits)), BeforeHash: w.tip.Hash, AfterHash: x.Hash, Height: x.Height})
+	w.splitAfter[x.Hash] = x.Height
+	w.splitBefore[w.tip.Hash] = true
+	w.applySplits(w.repo)
+	if w.twin != nil {
+		w.applySplits(w.twin)
+	}
+	w.pendingS = append(w.pendingS, pendingSerial{serial: x.Serial, peer: 0})
+	w.c.Event("chain split configured at height %d: n%d on both chains, n%d starts the other chain", x.Height, w.tip.Serial, x.Serial)
+	w.c.Probe("split-configured")
+}
+
 // ---------------------------------------------------------------------------------------------
 // C19
 
@@ -495,6 +522,13 @@ func (w *World) execLocator(op Op) {
 			w.c.Fail("c19.no-duplicates", "duplicate", "locator(max=%d) contains %s twice", max, h)
 		}
 		seen[h] = true
+		if w.splitBefore[h] && !(w.tip.Parent != nil && h == w.tip.Parent.Hash) {
+			// a configured chain-split fork point: a member by configuration, whatever the repository
+			// holds now; it is placed by the height of the split (one above its own), so it takes no part
+			// in the order, the starting point or the count of the best-chain hashes
+			w.c.Probe("locator-contains-split-fork-point")
+			continue
+		}
 		n := w.m.ByHash[h]
 		if n == nil || !n.Accepted {
 			w.c.Fail("c19.members", "unknown-hash", "locator(max=%d)[%d] = %s is not a header the repository holds", max, i, h)
@@ -543,6 +577,9 @@ func (w *World) execLocator(op Op) {
 		}
 		if at == nil || at == leaf {
 			continue
+		}
+		if w.splitBefore[at.Hash] && !at.Accepted {
+			continue // a configured fork point that the repository does not hold (any more)
 		}
 		first := model.AncestorAt(leaf, at.Height+1)
 		if first == nil {
@@ -612,6 +649,7 @@ func (w *World) execCrash(op Op) {
 func (w *World) checkImage(img *simstore.Store, what string, lastSaved *model.Node) {
 	repo := headers.NewRepository(w.cfg, img)
 	repo.DisableDifficulty()
+	w.applySplits(repo)
 	var err error
 	panicked := false
 	func() {
@@ -701,6 +739,8 @@ func (w *World) Exec(op Op) {
 		w.execUnmark(op)
 	case "proof":
 		w.execProof(op)
+	case "split":
+		w.execSplit(op)
 	case "locator":
 		w.execLocator(op)
 	case "crash":
